@@ -599,6 +599,29 @@ C14bullet_OK(ev) ==
   /\ \A i \in Idx(ev.doc) : IsLine(ev.doc.elems[i]) =>                               \* every line lies on the run's axis
         onAxis(ev.doc.elems[i].n[1], ev.doc.elems[i].n[2]) /\ onAxis(ev.doc.elems[i].n[3], ev.doc.elems[i].n[4])
 
+\* bullets and arrowheads in company (every neighbourhood of the glyph tables, MC_Nbhd): where the SPECIFICATION's glyph rules attach
+\* a bullet to a line (the model's document has a marker line ending in the bullet's cell) or end a line in an arrowhead (the
+\* model's document has a polygon there), the real document has the marker line with that end and that kind - and does not show
+\* the bullet as text - respectively a filled three-vertex polygon in the same place.  ev.expect = [markers |-> << <<x, y, class>> >>,
+\* polys |-> << <<x0, y0, x1, y1>> >>] in lattice units, computed from the model's document by the driver.
+C14m_OK(ev) ==
+  /\ ev.doc.wf = 1
+  /\ \A q \in 1..Len(ev.expect.markers) :
+        LET m == ev.expect.markers[q] IN
+        /\ \E i \in Idx(ev.doc) : LET e == ev.doc.elems[i] IN
+              IsLine(e) /\ \/ (HasCls(e, "end_" \o m[3]) /\ e.n[3] = m[1] * MILLI /\ e.n[4] = m[2] * MILLI)
+                           \/ (HasCls(e, "start_" \o m[3]) /\ e.n[1] = m[1] * MILLI /\ e.n[2] = m[2] * MILLI)
+        /\ \A i \in OfKind(ev.doc, "text") : LET e == ev.doc.elems[i] IN
+              ~(TextAnchorOK(e) /\ TextRow(e) = (m[2] \div CH) + 1 /\ (m[1] \div CW) + 1 \in RangeOf(TextCols(e)))
+  /\ \A q \in 1..Len(ev.expect.polys) :
+        LET b == ev.expect.polys[q] IN
+        \E i \in Idx(ev.doc) : LET e == ev.doc.elems[i] IN
+           /\ e.k = "polygon" /\ HasCls(e, "filled") /\ Len(e.n) = 6
+           /\ LET xs == { e.n[1], e.n[3], e.n[5] } ys == { e.n[2], e.n[4], e.n[6] } IN
+              /\ SetMin(xs) <= b[3] * MILLI /\ SetMax(xs) >= b[1] * MILLI
+              /\ SetMin(ys) <= b[4] * MILLI /\ SetMax(ys) >= b[2] * MILLI
+C14m_NT(ev) == Len(ev.expect.markers) + Len(ev.expect.polys) > 0
+
 \* ev.outline = [k, n, w, h, tl, tr, bl, br, off]: a rounded outline (interior w x h) with a two-dash stub on
 \* the right side of its first interior row, so that it is not endorsed as a rect
 \* o.off = 0: the corner characters stand in the sides' columns; o.off = 1: the offset form, corner characters one
